@@ -1150,8 +1150,9 @@ def r9(ctx):
                          f"np.copy(self.__getattribute__({attr_p})[{ix_p}])")
         zero = [n for n in walk_own(g.node) if isinstance(n, ast.Assign) and len(n.targets) == 1 and isinstance(n.targets[0], ast.Subscript) and U(n.targets[0].value) == Rn
                 and isinstance(n.value, ast.Constant) and n.value.value in (0, 0.0)]
-        where_ok = len(zero) == 1 and U(inline(zero[0].targets[0].slice, genv)).replace(" ", "") in (f"np.where({ix_p}==-1)[0]", f"{ix_p}==-1", f"np.flatnonzero({ix_p}==-1)",
-                                                                                                    f"np.where({ix_p}==CONTROL_SENTINEL_VALUE)[0]", f"{ix_p}==CONTROL_SENTINEL_VALUE")
+        from engine.astutil import UC
+        where_ok = len(zero) == 1 and UC(inline(zero[0].targets[0].slice, genv)) in [UC(t_) for t_ in (f"np.where({ix_p}==-1)[0]", f"{ix_p}==-1", f"np.flatnonzero({ix_p}==-1)",
+                                                                                                           f"np.where({ix_p}==CONTROL_SENTINEL_VALUE)[0]", f"{ix_p}==CONTROL_SENTINEL_VALUE")]
         ok = copy_ok and where_ok
     ctx.check("R9", f"{g.site()}::zeroes-controls", ok, "sampler-side gather zeroes the rows indexed by -1 on a copy (same convention as the exported predictor)",
               "the sampler's gather no longer zeroes control (-1) rows on a copy")
